@@ -227,7 +227,7 @@ impl Property for C14 {
         "C14"
     }
     fn rule(&self) -> String {
-        "case kinds. One: a single -a or -b value from the documented grammar: 4 date-time shapes x fraction {none,3,6} x zone {none, +hhmm, +hh:mm, +hh, every unambiguous upper-case name} x spacing variants; 3 bare-date shapes; '+epoch'; relative '+/-' followed by any non-empty subset and order of Nw Nd Nh Nm Ns with multi-digit counts (now fixed through the S4_VERIF_NOW hook); under -t in 15-minute steps. Other: one absolute bound and the other given as '@+/-...' relative to it. Reject: certainly-invalid values (month 13, day 00/32, hour 25, minute 60, garbage, unknown zone, every ambiguous zone name; near misses: any valid date-time shape x fraction or bare date followed, attached or spaced, by an ambiguous or unknown zone name in either letter case; both bounds '@', '@' without other bound, after > before). oracle: independent resolution => expected instant, observed (a) in the `Datetime filter -a/-b` summary lines (second resolution) and (b) to the microsecond through a probe log with messages at X-1s, X-1us, X, X+1us, X+1s and the inclusive window semantics; rejections: non-zero exit status and empty stdout. non-trivial = zone present or fraction present or relative form; distinct = hash(case).".into()
+        "case kinds. One: a single -a or -b value from the documented grammar: 4 date-time shapes x fraction {none,3,6} x zone {none, +hhmm, +hh:mm, +hh, every unambiguous upper-case name} x spacing variants; 3 bare-date shapes; '+epoch'; relative '+/-' followed by any non-empty subset and order of Nw Nd Nh Nm Ns with multi-digit counts (now fixed through the S4_VERIF_NOW hook); under -t in 15-minute steps. Other: one absolute bound and the other given as '@+/-...' relative to it. Reject: certainly-invalid values (month 13, day 00/32, hour 25, minute 60, garbage, unknown zone, every ambiguous zone name; near misses: any valid date-time shape x fraction or bare date followed, attached or spaced, by an ambiguous or unknown zone name in either letter case; both bounds '@', '@' without other bound, after > before: fixed pairs, generated pairs in one zone spelling that differ by 1 us..5 s with 3/6-digit fractions, and generated pairs in independent zone spellings ordered by instant, not by wall-clock text). oracle: independent resolution => expected instant, observed (a) in the `Datetime filter -a/-b` summary lines (second resolution) and (b) to the microsecond through a probe log with messages at X-1s, X-1us, X, X+1us, X+1s and the inclusive window semantics; rejections: non-zero exit status and empty stdout. non-trivial = zone present or fraction present or relative form; distinct = hash(case).".into()
     }
     fn assumptions(&self) -> Vec<String> {
         vec!["`now` is fixed with the S4_VERIF_NOW hook (guard --cfg s4_verif)".into(), "a repeated unit in a relative value keeps its last occurrence (documented by the project's unit tests)".into()]
@@ -314,7 +314,47 @@ impl Property for C14 {
                 Case::Reject { a: None, b: Some(text), why }
             }
         });
-        prop_oneof![8 => one, 3 => other, 1 => bad, 2 => nearmiss].boxed()
+        // inverted windows built from the valid grammar: (i) two bounds in one zone spelling whose instants differ by a
+        // sub-second to a-few-seconds amount, the later one given as -a; (ii) two independent bounds of one civil day in
+        // independent zone spellings, the later *instant* given as -a (its wall-clock text may well be the earlier one)
+        let inv_close = (abs_strategy(), prop_oneof![3 => 1u32..1_000_000, 1 => Just(1u32), 1 => Just(1000u32), 1 => Just(999_999u32), 1 => 1_000_000u32..5_000_000], any::<bool>()).prop_map(|(b0, delta, three)| {
+            let mut b = b0;
+            if b.day < 401 || b.day > 46990 {
+                b.day = 20000;
+            }
+            let mut a = b.clone();
+            a.frac = if three && delta % 1000 == 0 && b.us % 1000 == 0 { 3 } else { 6 };
+            if b.frac == 0 {
+                b.us = 0;
+                a.us = 0;
+            } else if b.frac == 3 {
+                b.us -= b.us % 1000;
+                a.us = b.us;
+            }
+            let tot = a.us as u64 + delta as u64;
+            a.us = (tot % 1_000_000) as u32;
+            let sod = a.sod as u64 + tot / 1_000_000;
+            a.sod = (sod % 86400) as u32;
+            a.day += (sod / 86400) as u32;
+            (Arg::Abs(a), Arg::Abs(b), "after > before by a small amount")
+        });
+        let inv_zones = (abs_strategy(), abs_strategy()).prop_map(|(a, mut b)| {
+            b.day = a.day;
+            (Arg::Abs(a), Arg::Abs(b), "after > before across zone spellings")
+        });
+        let inverted = prop_oneof![inv_close, inv_zones].prop_map(|(a, b, why)| {
+            let (ta, xa) = render_arg(&a, 0, 0);
+            let (tb, xb) = render_arg(&b, 0, 0);
+            if xa > xb {
+                Case::Reject { a: Some(ta), b: Some(tb), why: why.to_string() }
+            } else if xb > xa {
+                Case::Reject { a: Some(tb), b: Some(ta), why: why.to_string() }
+            } else {
+                // equal instants are a valid (one-instant) window; keep the case useful: a plainly inverted pair
+                Case::Reject { a: Some("2020-01-03".into()), b: Some("2020-01-02".into()), why: "after > before".into() }
+            }
+        });
+        prop_oneof![8 => one, 3 => other, 1 => bad, 2 => nearmiss, 2 => inverted].boxed()
     }
     fn exec(&self, case: &Case, _ctx: &Ctx) -> Outcome {
         let sc = Scratch::new();
@@ -340,7 +380,7 @@ impl Property for C14 {
                 if out.status == Some(0) || !out.stdout.is_empty() {
                     return Outcome::fail("accepted-invalid", format!("{}: -a {:?} -b {:?} exit status {:?}, stdout {} bytes", why, a, b, out.status, out.stdout.len()));
                 }
-                Outcome::pass(true, hash_debug(case)).class("reject").class(&format!("reject:{}", why.split(' ').next().unwrap_or("")))
+                Outcome::pass(true, hash_debug(case)).class("reject").class(&format!("reject:{}", if why.starts_with("after >") { why.as_str() } else { why.split(' ').next().unwrap_or("") }))
             }
             Case::One { arg, is_after, cli_off15, now } => {
                 let cli_off = *cli_off15 as i32 * 900;
